@@ -203,4 +203,24 @@ def msweepEst (hasMain : Bool) : Nat :=
 def msweepReal (moved : Nat) (main : Option Nat) : Nat :=
   vsize (realShape ((.wpkh, moved) :: optSig main) [.wpkh])
 
+/-! ## One estimator used step by step (`Add…` calls interleaved with `VirtualSize()` queries)
+
+The estimator is an accumulator: after any prefix of `Add…` calls `VirtualSize()` is the estimate
+of the shape accumulated so far — it has no other state. -/
+
+inductive Step
+  | addIns (k : InKind) (n : Nat)
+  | addOuts (k : OutKind) (n : Nat)
+  | query
+  deriving Repr
+
+/-- the query results, in order, and the final accumulated shape. -/
+def runSteps : List Step → List InKind → List OutKind → List (Option Nat) × List InKind × List OutKind
+  | [], ins, outs => ([], ins, outs)
+  | .addIns k n :: rest, ins, outs => runSteps rest (ins ++ List.replicate n k) outs
+  | .addOuts k n :: rest, ins, outs => runSteps rest ins (outs ++ List.replicate n k)
+  | .query :: rest, ins, outs =>
+    let (qs, i, o) := runSteps rest ins outs
+    (estimate ins outs :: qs, i, o)
+
 end KeepVerif.C30
